@@ -117,6 +117,18 @@ var verifC13Invalid = []func(r *Router){
 	func(r *Router) {
 		r.Group("/g", func() { r.GET("/x", verifNop, make([]HandlerFunc, 40)...) }, make([]HandlerFunc, 30)...)
 	},
+	func(r *Router) { // each part far below the limit, only the merged chain is not
+		rt := NewRoute("/x", verifNop, "GET").Use(make([]HandlerFunc, 32)...)
+		r.Group("/g", func() { r.AddRoute(rt) }, make([]HandlerFunc, 31)...)
+	},
+	func(r *Router) {
+		r.Group("/g", func() { r.Any("/x", verifNop, make([]HandlerFunc, 40)...) }, make([]HandlerFunc, 23)...)
+	},
+	func(r *Router) {
+		r.Group("/g", func() {
+			r.Group("/h", func() { r.GET("/x", verifNop) }, make([]HandlerFunc, 32)...)
+		}, make([]HandlerFunc, 31)...)
+	},
 	func(r *Router) { r.Add("/x", verifNop, "FETCH") },
 	func(r *Router) { r.Add("/x", verifNop, "DEL") },
 	func(r *Router) { r.Add("/x", verifNop, "GET,POST") },
